@@ -9,7 +9,7 @@ import props.c02 as c02
 
 LEVEL = "model_checking"
 ASSUME = c02.ASSUME + ["selector driven with a fake Clock and a stub SelectionStrategy; the rule-based strategy with synthetic features"]
-RBS = ["off", "on", "lazy05", "lazy01", "lazy100", "incr", "incrms", "smart", "smartoff"]
+RBS = ["off", "on", "lazy05", "lazy01", "lazy100", "incr", "incrms", "smart", "smartoff", "lazy0", "lazybig", "incr0", "smartall"]
 TOGGLES = ["rb_off", "rb_on", "lazy_on", "lazy_off", "incr_on", "incr_off", "rebalance_all", "force_batch", "rebalance_ds"]
 
 
@@ -109,6 +109,16 @@ def run(ctx):
         ops = [{"raw": rng.choice(["none", "lazy", "incremental"]), "conf": rng.choice([0, 10, 49, 50, 69, 70, 71, 99, 100]),
                 "dt": rng.choice([0, 1, 15, 29, 30, 31, 60])} for _ in range(rng.randint(4, 25))]
         sel_cases.append({"cfg": {"allowed": allowed, "minconf": rng.choice([0, 50, 70, 100]), "period": 30}, "ops": ops})
+    # boundaries of the value space: a confidence one float below / above the minimum, the longest period a Duration holds
+    for allowed in ([], ["lazy"], ["lazy", "incremental"]):
+        for mc in (0, 50, 70, 75, 100):
+            for eps in (-1, 0, 1):
+                ops = [{"raw": "lazy", "conf": mc, "eps": eps, "dt": 0}, {"raw": "incremental", "conf": mc, "eps": -eps, "dt": 1},
+                       {"raw": "lazy", "conf": mc, "eps": eps, "dt": 31}, {"raw": "lazy", "conf": 100, "eps": -1, "dt": 0}]
+                sel_cases.append({"cfg": {"allowed": allowed, "minconf": mc, "period": 30}, "ops": ops})
+        for dts in ((0, 1, 1, 1), (5, 1000000, 1, 100000000), (0, 0, 0, 0)):
+            ops = [{"raw": r, "conf": 90, "dt": d} for r, d in zip(("lazy", "incremental", "none", "lazy"), dts)]
+            sel_cases.append({"cfg": {"allowed": allowed, "minconf": 50, "period": 1 << 30, "periodmax": True}, "ops": ops})
     spath = ctx.write_cases(sel_cases, "sel_cases.ndjson")
     strace, sout = ctx.drive("c19sel", spath, trace_name="sel_trace.ndjson")
     H.log(sout.strip())
